@@ -697,6 +697,68 @@ class C14(Prop):
         return "<" in case["input"]
 
 
+def norm_tree(t):
+    """Expr tree modulo number spelling (2.50 = 2.5) and key order"""
+    if isinstance(t, dict):
+        d = {k: norm_tree(v) for k, v in t.items()}
+        if d.get("t") == "num":
+            try:
+                d["v"] = repr(float(d["v"]))
+            except Exception:
+                pass
+        if d.get("t") == "bin" and d.get("op") in ("==", "===", "!=", "!=="):
+            pass
+        return d
+    if isinstance(t, list):
+        return [norm_tree(x) for x in t]
+    return t
+
+
+class C15(Prop):
+    id = "C15"
+    n_quick = 4000
+    n_thorough = 120000
+    batch = 2000
+    required_theorems = ["C15_extract", "C15_parseFunction_total", "C15_parseFunction_tree_iff"]
+    rule = ("inputs to parser.ParseFile (with and without StoreComments) and parser.ParseFunction, each run twice under recover and a per-input time bound (10 s + 0.2 ms/byte): "
+            "30% well-formed expressions of the supported subset from the type-directed C01 generator (must be accepted, and the otto AST must equal the generator's tree: "
+            "precedence and associativity), 40% mutations of a 39-snippet corpus covering every statement kind (byte insert/delete/replace/flip, truncation, chunk duplication, "
+            "splicing, case change, wrapping), 10% random bytes incl. invalid UTF-8 (base64-transported), 10% deep nesting (10-2000 quick / 20000 thorough; labelled blocks <= 310), "
+            "10% function bodies that try to leave ParseFunction's wrapper. Non-trivial: source longer than 3 bytes; distinct by source.")
+    assumptions = ["the lexer and the statement/expression parser are NOT modelled: their panic-freedom and termination are exercised by this differential fuzzing only; stack "
+                   "exhaustion at extreme nesting and wall-clock behaviour are runtime properties no model exhibits (nested labelled blocks parse in superlinear time)"]
+
+    def compare(self, case, impl, model, spec):
+        if not isinstance(impl, dict) or impl.get("class") != "ok":
+            return False, False, "harness failure / process death: %r" % (impl,)
+        m = model or {}
+        why = []
+        corr = True
+        for k in ("file", "file2", "filec"):
+            if impl[k]["class"] not in ("tree", "error"):
+                why.append("ParseFile(%s): %s %s" % (k, impl[k]["class"], impl[k].get("msg", "")))
+            corr = corr and impl[k]["class"] in m.get("file", [])
+        for k in ("func", "func2"):
+            if impl[k]["class"] not in ("tree", "error"):
+                why.append("ParseFunction: %s %s" % (impl[k]["class"], impl[k].get("msg", "")))
+            corr = corr and impl[k]["class"] in m.get("func", [])
+        if impl["file"] != impl["file2"] or impl["func"] != impl["func2"]:
+            why.append("two different answers for one input")
+        if case.get("expect") is not None:
+            if impl["file"]["class"] != "tree":
+                why.append("an expression of the supported subset is rejected: %s" % impl["file"].get("err"))
+            elif norm_tree(impl.get("ast")) != norm_tree(case["expect"]):
+                why.append("AST differs from the JavaScript tree: %s" % json.dumps(impl.get("ast"))[:300])
+        ok = not why
+        return (corr and (ok or any("ParseFunction: panic" in w for w in why))), ok, "%s %r: %s" % (case["bucket"], case["src"][:120], "; ".join(why) or "ok")
+
+    def nontrivial(self, case, impl):
+        return len(case["src"]) > 3
+
+    def bucket(self, case, impl):
+        return case.get("bucket")
+
+
 WS = " \t\r\n"
 
 
@@ -755,4 +817,4 @@ class C13(Prop):
         return "%s/%s" % (case.get("from"), out_of((impl or {}).get("prod"))[0])
 
 
-PROPS = {p.id: p for p in [C01(), C02(), C03(), C04(), C05(), C06(), C07(), C09(), C10(), C11(), C12(), C13(), C14(), C16(), C17(), C18(), C19(), C20()]}
+PROPS = {p.id: p for p in [C01(), C02(), C03(), C04(), C05(), C06(), C07(), C09(), C10(), C11(), C12(), C13(), C14(), C15(), C16(), C17(), C18(), C19(), C20()]}
